@@ -203,7 +203,7 @@ func vLemmaApplyBool(data []uint64, chunk commit.Chunk, buf []byte, last int32, 
 // One operation through a bitmap index (C03): a put makes bit `offset` equal to what the rule answers for the reader
 // positioned on that operation, a delete clears it, other kinds and other bits are untouched.
 //
-//@ lemma props=C03 mode=paths
+//@ lemma props=C03,C11 mode=paths
 func vLemmaApplyIndex(fill []uint64, chunk commit.Chunk, buf []byte, last int32, cur commit.Chunk, s int, sel uint8, idx uint32, v uint32, rule func(Reader) bool) {
 	vAssume(idx < 1<<31 && commit.ChunkAt(idx) == chunk && last >= 0 && 0 <= s && s <= len(buf) && sel <= 4 && rule != nil && vShortDelta(last, idx, cur, chunk))
 	vAssume(int(idx>>6) < len(fill))
@@ -780,7 +780,7 @@ func vLemmaSortLess(a, b sortIndexItem) {
 // One operation through a sorted index: a put removes the row's previous entry (if it had one) and inserts
 // (value, offset), remembering the value for the row; a delete removes the row's entry; other kinds do nothing.
 //
-//@ lemma props=C16 mode=paths
+//@ lemma props=C16,C11 mode=paths
 func vLemmaApplySortIndex(chunk commit.Chunk, buf []byte, last int32, cur commit.Chunk, s int, sel uint8, idx uint32, v0 []byte, n uint16, hadKey string, had bool) {
 	vAssume(idx < 1<<31 && commit.ChunkAt(idx) == chunk && last >= 0 && 0 <= s && s <= len(buf) && sel <= 3 && vShortDelta(last, idx, cur, chunk))
 	vAssume(int(n) <= len(v0) && len(buf) < 1<<30 && commit.VSeparate(buf, v0) && vNothingHeld())
@@ -1631,7 +1631,7 @@ func vLemmaChunksGrow(chs chunks[int64], idx uint32) {
 // Collection.chunks (C07, C08): the number of blocks a snapshot writes covers every occupied offset of the fill list
 // (occupied, not counted: deletions in early blocks must not cut off the last blocks), read under the collection mutex.
 
-//@ lemma props=C07,C08
+//@ lemma props=C07,C08,C03,C16
 func vLemmaChunks(owner *Collection) {
 	vAssume(owner != nil && vNothingHeld() && len(owner.fill) <= 1<<25)
 	vCol = owner
@@ -2738,7 +2738,7 @@ func vLoopDeleteIndexComputed(filtered []*column, rangeindex int, rangeslice []*
 	vBody()
 }
 
-//@ lemma props=C03,C16,C19 mode=paths real=column.(*columns).DeleteIndex
+//@ lemma props=C03,C16,C19 mode=paths real=column.(*columns).DeleteIndex bounded=registry-of-2-entries
 func vLemmaRegistryDeleteIndex(c *columns, cs []*column, other columnEntry, columnName, indexName string, q int, dropped *column) {
 	n := len(cs) - 1
 	vAssume(c != nil && c.cols != nil && n >= 0 && n < 1<<20 && -1 <= q && q < n && cs[0] != nil && (dropped != nil || q < 0))
@@ -3133,4 +3133,70 @@ func vLemmaAccessorsBool(owner *Collection, cursor uint32, name string, v bool, 
 	vAssert("reads-the-named-column-at-the-cursor", vColumnAtName == name && got == (int(cursor>>6) < len(data) && vBit(data, cursor)))
 	row.SetBool(name, v)
 	vAssert("set-queues-the-value-for-the-row-under-the-cursor", vWrote(commit.Put, cursor, name, uint64(b2i(v))))
+}
+
+// Key accessor (C12): SetKey queues the key for the row under the cursor in the key column's buffer if and only if
+// no committed row holds the key; otherwise it fails and queues nothing. Enum accessor: one Put of the value.
+
+//@ lemma props=C12
+func vLemmaAccessorsKey(owner *Collection, cursor uint32, key string, at uint32, present bool) {
+	vAssume(owner != nil && owner.pk != nil && owner.pk.seek != nil && vNothingHeld())
+	vCol = owner
+	if present {
+		owner.pk.seek[key] = at
+	} else {
+		delete(owner.pk.seek, key)
+	}
+	txn := &Txn{owner: owner, cursor: cursor}
+	vPutStrings = 0
+	err := txn.Key().Set(key)
+	if present {
+		vAssert("key-held-by-a-committed-row:refused-nothing-queued", err != nil && vPutStrings == 0)
+	} else {
+		vAssert("free-key:queued-for-the-row-under-the-cursor-in-the-key-column", err == nil && vPutStrings == 1 && vPutStringOp == commit.Put &&
+			vPutStringIdx == cursor && vSame(vPutStringVal, key) && vBufferForName == owner.pk.name)
+	}
+	vAssert("released", vNothingHeld())
+}
+
+//@ lemma props=C01
+func vLemmaAccessorsEnum(owner *Collection, cursor uint32, name string, v string, chs chunks[uint32], names []string) {
+	vAssume(vForall(0, len(chs), func(k int) bool { return len(chs[k].fill) == chunkSize/64 && len(chs[k].data) == chunkSize }) && len(names) < 1<<20)
+	impl := &columnEnum{chunks: chs, data: names}
+	txn := vAccessorSetup(owner, cursor, impl)
+	Row{txn}.SetEnum(name, v)
+	vAssert("set-queues-a-put-of-the-value-for-the-row-under-the-cursor", vPutStrings == 1 && vPutStringOp == commit.Put && vPutStringIdx == cursor && vSame(vPutStringVal, v) && vBufferForName == name && vColumnAtName == name)
+}
+
+// columns.Store (C03, C16, C19), for a registry of two entries (the loop over the entries is unrolled; the column
+// lists have any length): for a registered name the given computed column is appended behind the ones already attached
+// - all of them stay - and the main column is replaced only if one is given; for a new name an entry
+// {name, [main, computed]} is appended behind the existing entries, which stay.
+//
+//@ lemma props=C03,C16,C19 real=column.(*columns).Store bounded=registry-of-2-entries
+func vLemmaRegistryStore(c *columns, e0, e1 columnEntry, name string, main, computed *column) {
+	vAssume(c != nil && c.cols != nil && computed != nil && e0.name != e1.name)
+	vAssume(len(e0.cols) >= 1 && len(e0.cols) < 1<<20 && e0.cols[0] != nil && len(e1.cols) >= 1 && len(e1.cols) < 1<<20 && e1.cols[0] != nil)
+	vAssume(vDistinctBacking(e0.cols, e1.cols))
+	old0 := append([]*column(nil), e0.cols...)
+	old1 := append([]*column(nil), e1.cols...)
+	vRegistry = []columnEntry{e0, e1}
+	vRegistryStores = 0
+	c.Store(name, main, computed)
+	now := vRegistry
+	vAssert("stored-once", vRegistryStores == 1)
+	switch name {
+	case e0.name:
+		vAssert("registered-name:computed-appended-all-attached-ones-stay", len(now) == 2 && len(now[0].cols) == len(old0)+1 && now[0].cols[len(old0)] == computed &&
+			vForall(1, len(old0), func(j int) bool { return now[0].cols[j] == old0[j] }))
+		vAssert("registered-name:main-replaced-only-if-given", (main != nil && now[0].cols[0] == main) || (main == nil && now[0].cols[0] == old0[0]))
+		vAssert("other-entry-untouched", now[1].name == e1.name && len(now[1].cols) == len(old1) && vForall(0, len(old1), func(j int) bool { return now[1].cols[j] == old1[j] }))
+	case e1.name:
+		vAssert("registered-name:computed-appended-all-attached-ones-stay", len(now) == 2 && len(now[1].cols) == len(old1)+1 && now[1].cols[len(old1)] == computed &&
+			vForall(1, len(old1), func(j int) bool { return now[1].cols[j] == old1[j] }))
+		vAssert("other-entry-untouched", now[0].name == e0.name && len(now[0].cols) == len(old0) && vForall(0, len(old0), func(j int) bool { return now[0].cols[j] == old0[j] }))
+	default:
+		vAssert("new-name:entry-appended-behind-the-existing-ones", len(now) == 3 && now[2].name == name && len(now[2].cols) == 2 && now[2].cols[0] == main && now[2].cols[1] == computed &&
+			now[0].name == e0.name && now[1].name == e1.name && len(now[0].cols) == len(old0) && len(now[1].cols) == len(old1))
+	}
 }
